@@ -46,7 +46,7 @@ def fix_serials(items, start_serial):
 
 def edit_tables(rng, svcs, rules):
     """one of the edit kinds: add, remove, change in place (service protocol / rule field), replace everything, nothing"""
-    kind = rng.choice(['add', 'remove', 'inplace', 'inplace', 'rule-field', 'rule-add', 'rule-remove', 'replace', 'same', 'drop-section-content', 'drop-section-content'])
+    kind = rng.choice(['add', 'remove', 'inplace', 'inplace', 'rule-field', 'rule-add', 'rule-remove', 'replace', 'same', 'drop-section-content', 'drop-section-content', 'case-only', 'case-only'])
     svcs = list(svcs); rules = [dict(r) for r in rules]
     pool = ['s0.x', 's1.x', 's2.x', 'S3.x', 'login.svc', 'drone.svc', 'Auth.Svc', 'z.y', 'n1.x', 'n2.x']
     if kind == 'add':
@@ -61,6 +61,12 @@ def edit_tables(rng, svcs, rules):
         if f == 'trust': r['trust'] = not r.get('trust')
         elif r.get(f) is not None and rng.random() < 0.4: r[f] = None
         else: r[f] = {'class': rng.choice(['newclass', 'opers']), 'account': rng.choice(['op*', 'bob', '*']), 'address': rng.choice(['1.2.3.0/24', '2001:db8::/32', '10.*']), 'username': rng.choice(['ident', '~*']), 'hostname': rng.choice(['*.example.org', 'a'])}[f]
+    elif kind == 'case-only' and rules:
+        # an in-place edit that changes only the letter case of a value (class names and glob patterns are case-sensitive)
+        r = rng.choice(rules); f = rng.choice(['class', 'account', 'hostname', 'username'])
+        cur = r.get(f)
+        if cur is None: r[f] = {'class': 'Opers', 'account': 'Op*', 'hostname': '*.Example.org', 'username': 'Ident'}[f]
+        else: r[f] = cur.swapcase()
     elif kind == 'rule-add':
         rules.append(dict(name=rng.choice(['m', 'A', 'zz']) + str(rng.randrange(100, 999)), trust=rng.random() < 0.3, **{'class': rng.choice([None, 'added'])}))
     elif kind == 'rule-remove' and rules:
